@@ -86,7 +86,7 @@ CLAIMS['C10'] = dict(
          '10log10(.016678|E|^2/P) with the -999 floor, the total is the power sum, E = field/distance*sqrt(P_requested/P), and '
          'gain = |E|^2 r^2/(59.96 P) within 2e-5; scaling lemma. Clause "radiation sum of the pulse currents plus image currents" '
          '(free space / ideal ground): the middle of compute_far_field (direction vectors, the loop over image_iter(), projections on '
-         'theta^ and phi^) is executed on arrays of 1 zenith x 2 azimuths x 2 pulses with symbolic values and a pulse grounded at '
+         'theta^ and phi^) is executed on arrays of 1x2x2, 2x1x1 and 1x1x3 (zenith x azimuth x pulses) with symbolic values and a pulse grounded at '
          'either end, and equals the sum of half-segment moments and mirror images written from the property -- SHAPE-BOUNDED '
          '(values unbounded), so other array shapes rest on the native sweep. Not decided deductively: the 2 % agreement with the exact '
          'integral, 360-degree periodicity, zenith independence.',
